@@ -30,6 +30,24 @@ Theorem c09_gov_additive : forall net s m e, s <= m -> m <= e -> e < w32 ->
 Proof. exact gov_additive. Qed.
 Print Assumptions c09_gov_additive.
 
+(** Any number of consecutive claims (the history form of additivity): for every list of cut
+    points s <= m1 <= ... <= mk <= e ([chain_ok]), the amounts of the k+1 consecutive calls, added
+    as integers ([sum_claims]; [None] if a call panicked), are exactly the amount of the single call
+    over [s,e) — no call panics and nothing wraps. *)
+Theorem c09_holder_chain_additive : forall net b cuts s e,
+  b <= ont_total_supply -> chain_ok s cuts e -> e < w32 ->
+  exists z, calc_unbind_ong net b s e = Ok z /\
+            sum_claims (calc_unbind_ong net b) s cuts e = Some z /\ z < w64.
+Proof. exact holder_chain_additive. Qed.
+Print Assumptions c09_holder_chain_additive.
+
+Theorem c09_gov_chain_additive : forall net cuts s e,
+  chain_ok s cuts e -> e < w32 ->
+  exists z, calc_governance_unbind_ong net s e = Ok z /\
+            sum_claims (calc_governance_unbind_ong net) s cuts e = Some z /\ z < w64.
+Proof. exact gov_chain_additive. Qed.
+Print Assumptions c09_gov_chain_additive.
+
 (** Explicit per-second rates: both functions are balance (resp. ONT supply) times the sum of a
     rate function over the seconds of the interval, so the amount issued depends on the
     interval only, not on when it is cut. *)
@@ -98,3 +116,15 @@ Example c09_nonvacuous :
   | None => False
   end.
 Proof. vm_compute. repeat split; reflexivity. Qed.
+
+(** Non-vacuity of the chain form: four consecutive claims of 1000 ONT on mainnet over
+    [0, 40000000) cut at 1, 31536000 (one year) and 31536001 add up to the single claim, which is
+    not zero. *)
+Example c09_chain_nonvacuous :
+  chain_ok 0 [1; 31536000; 31536001] 40000000 /\
+  match sum_claims (calc_unbind_ong 1 1000) 0 [1; 31536000; 31536001] 40000000,
+        calc_unbind_ong 1 1000 0 40000000 with
+  | Some x, Ok z => x = z /\ 0 < z
+  | _, _ => False
+  end.
+Proof. vm_compute. repeat split; try reflexivity; discriminate. Qed.
